@@ -16,7 +16,7 @@ pub struct Case {
     pub sig_tail: String,
 }
 
-const TIMING_ORACLES: &[&str] = &["pool_stopped_serving", "capacity_lost", "destructor_count", "drop_blocked_async_thread", "get_hang", "harness"];
+const TIMING_ORACLES: &[&str] = &["destructor_never_ran", "pool_stopped_serving", "capacity_lost", "destructor_count", "drop_blocked_async_thread", "get_hang", "harness"];
 
 fn run_many(args: &Args, rep: &mut Report, engine: &str, n: u64, jobs: usize, f: impl Fn(u64) -> Case + Send + Sync + 'static) {
     let f = std::sync::Arc::new(f);
@@ -81,6 +81,7 @@ fn main() {
         for _ in 0..20 {
             let c = match engine.as_str() {
                 "c14" => c14::history(seed, idx),
+                "c14_drop_race" => c14::drop_race(seed, idx),
                 "c15_sqlite" => c15::history(c15::Backend::Sqlite, seed, idx),
                 "c15_r2d2" => c15::history(c15::Backend::R2d2, seed, idx),
                 "c15_diesel" => c15::history(c15::Backend::Diesel, seed, idx),
@@ -112,6 +113,9 @@ fn main() {
             );
             // each history owns a small runtime: run several at once
             run_many(&args, &mut rep, "c14", sc(1500.0, 40_000.0), args.jobs, move |i| c14::history(seed, i));
+            // the one window no history can aim at: the end of an abandoned closure against the drop of the wrapper
+            // (400 trials per case; few cases at a time, the trials spin)
+            run_many(&args, &mut rep, "c14_drop_race", sc(100.0, 2500.0), (args.jobs / 4).max(1), move |i| c14::drop_race(seed, i));
             std::process::exit(rep.finish(&args));
         }
         "C15" => {
